@@ -1,6 +1,7 @@
 import TdVerif.Sexp
 import TdVerif.Model.C08Lazy
 import TdVerif.Model.C08Lazy2
+import TdVerif.Model.C08Apply
 
 namespace TdVerif.Drive
 open TdVerif Sexp TdVerif.C08
@@ -210,6 +211,21 @@ def handleC08 (cmd : String) (args : List Sexp) : Option Sexp :=
       let L := mkLazy bs n sd feats
       let v := mkValue L.batch feats
       pure (membersToSexp (lazyUpdate_ L { v with keys := ks }))
+  -- (c08.apply (bs ..) n sd (feats ..) op) : `lazy.apply(fn)` / `lazy.apply(fn, other)`, other = dense stack of operand 1
+  | "c08.apply", [bs, n, sd, feats, .atom op] => do
+      let bs ← shapeOf? bs
+      let n ← asNat? n
+      let sd ← asNat? sd
+      let feats ← featsOf? feats
+      let L := mkLazy bs n sd feats
+      let other := absL (mkOperand bs n sd feats 1)
+      match op with
+      | "mul3add1" => pure (membersToSexp (some (lazyApply1 L fun x => 3 * x + 1)))
+      | "neg" => pure (membersToSexp (some (lazyApply1 L fun x => -x)))
+      | "twice_plus" => pure (membersToSexp (lazyApply2 L other fun x y => 2 * x + y))
+      | "sub" => pure (membersToSexp (lazyApply2 L other fun x y => x - y))
+      | "where_lt" => pure (membersToSexp (lazyApply2 L other fun x y => if x % 3 = 0 then x else y))
+      | _ => none
   -- (c08.get2 (bs ..) n_in n_out sd_in sd_out (feats ..) (ix ..)) : read on a stack of stacks
   | "c08.get2", [bs, nin, nout, sdin, sdout, feats, ix] => do
       let bs ← shapeOf? bs
